@@ -1,6 +1,8 @@
 """C10 — path decomposition and queries follow the C++17 filesystem::path model."""
 import path_common as pc
 
+from vlib import REPO
+
 def run(ck):
     ck.level = "proof"
     ck.cov["rule"] = ("every string over {'/', '.', 'a'} up to length 9 (quick) / 12 (thorough) plus seeded random strings over more bytes: all eight decomposition "
@@ -9,6 +11,11 @@ def run(ck):
                       "and checks views are slices; every input lives in an exact-size heap block under ASan; the Lean transcription of the C++17 rules is "
                       "cross-checked against libstdc++ on the same strings")
     ck.assumptions += ["POSIX build (no root names)", "libstdc++ 12 implements the C++17 rules"]
+    try:
+        import gen_charclass
+        ck.write_generated("CharClass.lean", gen_charclass.generate(REPO, ck.work))
+    except Exception as e:
+        ck.machinery_error("translator gen_charclass failed: %r" % (e,)); return
     if not ck.build_driver(): return
     if not ck.prove():
         ck.report_proof_failure("theorems about the path model no longer build")
